@@ -27,7 +27,7 @@ EXPLANATION = ('theorems C19_* (coq/props/C19.v) hold for every nesting, compani
 TRUSTED = ['modelled, not verified: the asyncio scheduler (event loop, gather, Future/Task callbacks) - the theorem covers the bookkeeping of waiter (gather collects by position, a future is '
            'resolved once), the real loop is only sampled by the enumerated completion orders',
            'modelled, not verified: Python argument binding (*args / **kwargs / defaults) as f_named; str methods behind the lifted text helpers (leaf values are carried, the oracle '
-           'applies the helper to each bare leaf)']
+           'applies the helper to each bare leaf, and compares each leaf with the helper\'s documented behaviour written with plain str / float operations)']
 ASSUMPTIONS = ['dict keys are hashable leaves (str, int, float, tuple, None); Dict / dictattr are not given tuple keys (they read a tuple key as a path)', 'no keyword named axis', 'containers are exactly list, tuple, dict, OrderedDict, Dict, dictattr',
                'known finding: a companion of different length / keys that contains a sub-container of the matching length / keys is not broadcast (C19_broadcast_refuted); broadcast is proved for companions without one']
 EXHAUSTIVE = {'quick': False, 'thorough': False}
@@ -105,8 +105,10 @@ def impl_setup():
     import asyncio
     from collections import OrderedDict
     from pyg_base import loop, zipper, lens, as_list, as_tuple, waiter, Dict, dictattr
-    from pyg_base import lower, upper, strip, proper, capitalize, replace, split, f12, as_float
-    LIB = dict(lower=lower, upper=upper, strip=strip, proper=proper, capitalize=capitalize, replace=replace, split=split, f12=f12, as_float=as_float)
+    from pyg_base import lower, upper, strip, proper, capitalize, replace, split, f12, as_float, relabel_lower, as_ascii
+    from pyg_base._txt import bbgcase
+    LIB = dict(lower=lower, upper=upper, strip=strip, proper=proper, capitalize=capitalize, replace=replace, split=split, f12=f12, as_float=as_float,
+               relabel_lower=relabel_lower, bbgcase=bbgcase, as_ascii=as_ascii)
     CLS = [dict, OrderedDict, Dict, dictattr]
     F_RECORD = {}; F_NAMED = {}
     for tys in ('LTD', 'L', 'T', 'D', 'LT', 'LD', 'TD'):
@@ -301,6 +303,42 @@ def guided(node, res, exp, counter):
 def _bad(o):
     return o in (-99, 'BADSHAPE') or (isinstance(o, list) and any(_bad(x) for x in o))
 
+# what each helper does to ONE leaf, written from its docstring with plain str / float operations (independent of pyg_base); None = no
+# independent statement for this leaf.  Every helper leaves a non-string (f12: a non-float) untouched.
+AS_FLOAT_DOC = {'1.3k': 1300.0, '1.4m': 1400000.0, '1.4 mln': 1400000.0, '1.4bn': 1400000000.0, '1.4tln': 1400000000000.0, '100%': 1.0, '100 pct': 1.0,
+                '100bp': 0.01, '1,234': 1234.0, '-1,234k': -1234000.0, '1.2 lakh': 120000.0, '1.2 crore': 12000000.0,
+                '.5': 0.5, '.25k': 250.0, '-.75': -0.75, '0.125': 0.125, '7': 7.0, '1.25': 1.25, '1e3': 1000.0, 'abc': 'abc', 'n/a': 'n/a'}
+def leaf_oracle(fn, leaf, kw):
+    if fn == 'f12':
+        return ('%1.2f' % leaf) if isinstance(leaf, float) else leaf
+    if not isinstance(leaf, str):
+        return leaf
+    if fn == 'lower': return leaf.lower()
+    if fn == 'upper': return leaf.upper()
+    if fn == 'capitalize': return leaf.capitalize()
+    if fn == 'strip': return leaf.strip()
+    if fn == 'proper': return ' '.join(t.capitalize() for t in leaf.split(' '))
+    if fn == 'as_ascii': return ''.join(c for c in leaf if 32 <= ord(c) < 127 and c != chr(92))      # printable ASCII, no backslash
+    if fn == 'as_float': return AS_FLOAT_DOC.get(leaf)
+    if fn == 'replace':
+        old = kw['old'] if isinstance(kw['old'], list) else [kw['old']]; new = kw.get('new') or ''
+        if any(o in new for o in old): return None           # documented ValueError
+        for o in old:
+            while o and o in leaf: leaf = leaf.replace(o, new)
+        return leaf
+    if fn == 'split':
+        sep = kw.get('sep', ' ')
+        if isinstance(sep, list):
+            if len(sep) == 0: sep = ' '
+            else:
+                for o in sep[1:]:
+                    if o in sep[0]: return None
+                    while o in leaf: leaf = leaf.replace(o, sep[0])
+                sep = sep[0]
+        res = leaf.split(sep)
+        return [w for w in res if w] if kw.get('dedup') else res
+    return None
+
 def impl_lib(case):
     leaves = case['leaves']
     arg = build(case['arg'], lambda k: leaves[k])
@@ -314,6 +352,17 @@ def impl_lib(case):
     viol = None
     if _bad(obs):
         viol = '%s(%r, **%r) = %r but applying it leaf by leaf gives %r' % (case['fn'], arg, kw, res, exp)
+    if viol is None and not any(isinstance(v, list) for v in kw.values()):      # list-valued old / sep may be matched element-wise: leaf-level companions differ
+        for leaf in leaves:
+            want = leaf_oracle(case['fn'], leaf, kw)
+            if want is None and not (case['fn'] == 'as_float' and leaf in AS_FLOAT_DOC):
+                continue
+            try:
+                got = fn(leaf, **kw)
+            except Exception as e:
+                viol = '%s(%r, **%r) raised %s' % (case['fn'], leaf, kw, type(e).__name__); break
+            if not same(got, want):
+                viol = '%s(%r, **%r) = %r, its documentation says %r' % (case['fn'], leaf, kw, got, want); break
     return {'status': 'ok', 'obs': obs, 'viol': viol}
 
 def _listy(v):
@@ -667,21 +716,22 @@ def gen_loop_shared(rng):
     return {'kind': 'loop', 'mode': 'named' if named else 'record', 'arg': arg, 'pos': comps[:npos], 'kw': [[n, c] for n, c in zip(kwn, comps[npos:])],
             'tag': 'shared', 'share': [paths]}
 
-STRS = ['Hello World', ' padded  ', 'MiXed case', 'a,b c', 'abcabc', '', 'x', 'the  quick brown', '1.5k', '100%', '-1,234', '2 mln', 'n/a', '7']
+STRS = ['Hello World', ' padded  ', 'MiXed case', 'a,b c', 'abcabc', '', 'x', 'the  quick brown', '1.5k', '100%', '-1,234', '2 mln', 'n/a', '7',
+        'caf\u00e9 au lait', 'na\u00efve \u00a35', 'back\\slash', "it's (ok); a/b & c", 'ibm us equity', 'Tab\there']
 def gen_lib(rng):
-    fn = rng.choice(['lower', 'upper', 'strip', 'proper', 'capitalize', 'replace', 'split', 'f12', 'as_float'])
+    fn = rng.choice(['lower', 'upper', 'strip', 'proper', 'capitalize', 'replace', 'split', 'f12', 'as_float', 'as_float', 'relabel_lower', 'bbgcase', 'as_ascii'])
     leaves = []
     def leaf():
         r = rng.random()
         if fn == 'f12':
             v = rng.choice([1.5, 2.25, 0.125, 3, None, 'txt', 1e6, -0.5, float('inf'), float('nan'), 1e-9, -0.0]) if r < 0.9 else rng.choice(STRS)
         elif fn == 'as_float':
-            v = rng.choice(['1.5k', '100%', '-1,234', '2 mln', 'n/a', '7', '', '1.25', '3bp', 'abc', 5, None, 2.5, '1e3', 'inf', 'nan', '-', ' 12 ',
+            v = rng.choice(sorted(AS_FLOAT_DOC)) if r < 0.5 else rng.choice(['1.5k', '100%', '-1,234', '2 mln', 'n/a', '7', '', '1.25', '3bp', 'abc', 5, None, 2.5, '1e3', 'inf', 'nan', '-', ' 12 ',
                             '1,2,3', '5 pct', '12bn', '1.2 crore', '3 lakh', 'k', '0.5M', '7 Percent', '1 234 567'])
         else:
             v = rng.choice(STRS) if r < 0.85 else rng.choice([3, None, 2.5])
         leaves.append(v); return len(leaves) - 1
-    arg = rand_struct(rng, rng.choice([0, 1, 2, 3, 4]), None, p_leaf=0.2, leaf=leaf, mixed=True)
+    arg = rand_struct(rng, 0 if fn == 'as_ascii' else rng.choice([0, 1, 2, 3, 4]), None, p_leaf=0.2, leaf=leaf, mixed=True)      # as_ascii is not lifted: bare strings only
     extra = {}
     if fn == 'replace':
         extra = {'old': rng.choice(['a', ' ', 'b', ['a', 'b', 'c', 'l', 'o'], 'll']), 'new': rng.choice([None, '_', 'Z'])}
